@@ -19,66 +19,79 @@ character* to the model and shows that the fuel handed in is never exhausted.  T
 then restated for the translated functions.
 -/
 set_option linter.unusedSimpArgs false
+set_option linter.unusedTactic false
+set_option linter.unreachableTactic false
 
 namespace GV.C11Src
 open GV GV.Geohash GV.Geohash.Gen
 
+/-!
+The loop lemmas are stated for *any* function that satisfies the equations of the generated loop (`F`, `G` below) and are
+applied to the generated loops by unification, inside the proofs of the top-level equalities: the proofs do not name the
+variables a loop merely reads, so a new local in front of a loop (`bits = config['bits']`) does not disturb them.
+-/
+
+/-- the state tuple the nested loop returns, in the order of the source's assignments -/
+def decTuple (s : DecSt) : (Rat × Rat) × (Rat × Rat) × Rat × Rat × Bool :=
+  (s.latIv, s.lonIv, s.lonErr, s.latErr, s.lonComp)
+
+theorem tuple_congr {α : Sort _} (G : Rat × Rat → Rat × Rat → Rat → Rat → Bool → α)
+    (L : (Rat × Rat) × (Rat × Rat) × Rat × Rat × Bool) (s : DecSt) (h : L = decTuple s) :
+    G L.1 L.2.1 L.2.2.1 L.2.2.2.1 L.2.2.2.2 = G s.latIv s.lonIv s.lonErr s.latErr s.lonComp := by
+  subst h; rfl
+
 /-! ## `_decode_niemeyer` -/
 
-/-- the inner `for mask in config['bits']` loop is the model's fold of `decBit` over the masks -/
-theorem decLoop2_eq (gh : List Char) (base : Nat) (cfg : NiemeyerCfg) (c : Char) (v : Nat) :
-    ∀ (masks : List Nat) (latIv lonIv : Rat × Rat) (lonErr latErr : Rat) (lc : Bool),
-      Src.Geohash.decodeNiemeyer.loop2 gh base cfg c v masks latIv lonIv lonErr latErr lc =
-        ((masks.foldl (fun s mask => decBit s (testMask v mask)) ⟨lonIv, latIv, lonErr, latErr, lc⟩).latIv,
-         (masks.foldl (fun s mask => decBit s (testMask v mask)) ⟨lonIv, latIv, lonErr, latErr, lc⟩).lonIv,
-         (masks.foldl (fun s mask => decBit s (testMask v mask)) ⟨lonIv, latIv, lonErr, latErr, lc⟩).lonErr,
-         (masks.foldl (fun s mask => decBit s (testMask v mask)) ⟨lonIv, latIv, lonErr, latErr, lc⟩).latErr,
-         (masks.foldl (fun s mask => decBit s (testMask v mask)) ⟨lonIv, latIv, lonErr, latErr, lc⟩).lonComp) := by
+/-- the inner `for mask in config['bits']` loop is the model's fold of `decBit` over the masks (`decVal`) -/
+theorem decInner_generic (v : Nat)
+    (F : List Nat → Rat × Rat → Rat × Rat → Rat → Rat → Bool → (Rat × Rat) × (Rat × Rat) × Rat × Rat × Bool)
+    (h0 : ∀ latIv lonIv lonErr latErr lc, F [] latIv lonIv lonErr latErr lc = (latIv, lonIv, lonErr, latErr, lc))
+    (hs : ∀ m ms latIv lonIv lonErr latErr lc, F (m :: ms) latIv lonIv lonErr latErr lc =
+      F ms (decBit ⟨lonIv, latIv, lonErr, latErr, lc⟩ (testMask v m)).latIv
+        (decBit ⟨lonIv, latIv, lonErr, latErr, lc⟩ (testMask v m)).lonIv
+        (decBit ⟨lonIv, latIv, lonErr, latErr, lc⟩ (testMask v m)).lonErr
+        (decBit ⟨lonIv, latIv, lonErr, latErr, lc⟩ (testMask v m)).latErr
+        (decBit ⟨lonIv, latIv, lonErr, latErr, lc⟩ (testMask v m)).lonComp) :
+    ∀ (masks : List Nat) (s : DecSt), F masks s.latIv s.lonIv s.lonErr s.latErr s.lonComp =
+      decTuple (masks.foldl (fun s mask => decBit s (testMask v mask)) s) := by
   intro masks
   induction masks with
-  | nil => intros; rfl
-  | cons m ms ih =>
-    intro latIv lonIv lonErr latErr lc
-    unfold Src.Geohash.decodeNiemeyer.loop2
-    simp only [List.foldl_cons, ih]
-    cases lc <;> cases hb : testMask v m <;> simp [decBit, testMask, mid] at hb ⊢ <;> simp [hb]
-
-/-- the decoder state after one character: the inner loop, as the model's `decVal` -/
-theorem decLoop2_decVal (gh : List Char) (base : Nat) (cfg : NiemeyerCfg) (c : Char) (v : Nat) (s : DecSt) :
-    Src.Geohash.decodeNiemeyer.loop2 gh base cfg c v cfg.bits s.latIv s.lonIv s.lonErr s.latErr s.lonComp =
-      ((decVal cfg s v).latIv, (decVal cfg s v).lonIv, (decVal cfg s v).lonErr, (decVal cfg s v).latErr,
-        (decVal cfg s v).lonComp) := by
-  rw [decLoop2_eq]; rfl
+  | nil => intro s; rw [h0]; rfl
+  | cons m ms ih => intro s; rw [hs, List.foldl_cons]; exact ih _
 
 /-- the outer `for character in geohash` loop, followed by the two mid points, is the model's `decGo` -/
-theorem decLoop1_eq (gh : List Char) (base : Nat) (cfg : NiemeyerCfg) :
-    ∀ (cs : List Char) (s : DecSt),
-      Src.Geohash.decodeNiemeyer.loop1 gh base cfg cs s.latIv s.lonIv s.lonErr s.latErr s.lonComp =
-        match decGo cfg cs s with
-        | .ok s' => .ok (mid s'.lonIv, mid s'.latIv, s'.lonErr, s'.latErr)
-        | .error e => .error e := by
+theorem decOuter_generic (cfg : NiemeyerCfg)
+    (G : List Char → Rat × Rat → Rat × Rat → Rat → Rat → Bool → Except String (Rat × Rat × Rat × Rat))
+    (h0 : ∀ s : DecSt, G [] s.latIv s.lonIv s.lonErr s.latErr s.lonComp = .ok (mid s.lonIv, mid s.latIv, s.lonErr, s.latErr))
+    (hs : ∀ c cs (s : DecSt), G (c :: cs) s.latIv s.lonIv s.lonErr s.latErr s.lonComp =
+      match decChar cfg s c with
+      | .ok s' => G cs s'.latIv s'.lonIv s'.lonErr s'.latErr s'.lonComp
+      | .error e => .error e) :
+    ∀ (cs : List Char) (s : DecSt), G cs s.latIv s.lonIv s.lonErr s.latErr s.lonComp =
+      match decGo cfg cs s with
+      | .ok s' => .ok (mid s'.lonIv, mid s'.latIv, s'.lonErr, s'.latErr)
+      | .error e => .error e := by
   intro cs
   induction cs with
-  | nil => intro s; simp [Src.Geohash.decodeNiemeyer.loop1, decGo, mid]
+  | nil => intro s; rw [h0]; rfl
   | cons c cs ih =>
     intro s
-    unfold Src.Geohash.decodeNiemeyer.loop1
-    simp only [decGo, decChar]
-    by_cases hc : c ∈ cfg.charset
-    · have hc' : cfg.charset.contains c = true := by simpa using hc
-      cases hl : cfg.inverse.lookup c.toNat with
-      | none => simp [hc]
-      | some v =>
-        simp only [hc, hc', decLoop2_decVal]
-        simpa using ih (decVal cfg s v)
-    · have hc' : cfg.charset.contains c = false := by simpa using hc
-      simp [hc]
+    rw [hs]
+    simp only [decGo]
+    cases decChar cfg s c with
+    | error e => rfl
+    | ok s' => exact ih s'
 
-/-- `_decode_niemeyer` for a config (whatever it is): the loops started at the config's ranges -/
-theorem decodeCfg_eq (gh' : List Char) (base : Nat) (cfg : NiemeyerCfg) (gh : List Char) :
-    Src.Geohash.decodeNiemeyer.loop1 gh' base cfg gh (cfg.minY, cfg.maxY) (cfg.minX, cfg.maxX) cfg.maxX cfg.maxY true =
-      decodeCfg cfg gh := by
-  have := decLoop1_eq gh' base cfg gh (DecSt.init cfg)
+/-- … started at the config's ranges: `decodeCfg` -/
+theorem decodeCfg_generic (cfg : NiemeyerCfg)
+    (G : List Char → Rat × Rat → Rat × Rat → Rat → Rat → Bool → Except String (Rat × Rat × Rat × Rat))
+    (h0 : ∀ s : DecSt, G [] s.latIv s.lonIv s.lonErr s.latErr s.lonComp = .ok (mid s.lonIv, mid s.latIv, s.lonErr, s.latErr))
+    (hs : ∀ c cs (s : DecSt), G (c :: cs) s.latIv s.lonIv s.lonErr s.latErr s.lonComp =
+      match decChar cfg s c with
+      | .ok s' => G cs s'.latIv s'.lonIv s'.lonErr s'.latErr s'.lonComp
+      | .error e => .error e) (gh : List Char) :
+    G gh (cfg.minY, cfg.maxY) (cfg.minX, cfg.maxX) cfg.maxX cfg.maxY true = decodeCfg cfg gh := by
+  have := decOuter_generic cfg G h0 hs gh (DecSt.init cfg)
   unfold decodeCfg
   refine Eq.trans this ?_
   cases decGo cfg gh (DecSt.init cfg) <;> rfl
@@ -89,52 +102,30 @@ theorem decodeNiemeyer_eq (gh : List Char) (base : Nat) :
   unfold Src.Geohash.decodeNiemeyer decode cfgOf
   cases niemeyerConfigs.lookup base with
   | none => rfl
-  | some cfg => simp only [decodeCfg_eq]
+  | some cfg =>
+    simp only []
+    refine decodeCfg_generic cfg _ ?_ ?_ gh
+    · intro s
+      simp [Src.Geohash.decodeNiemeyer.loop1, mid]
+    · intro c cs s
+      rw [Src.Geohash.decodeNiemeyer.loop1]
+      simp only [decChar]
+      by_cases hc : c ∈ cfg.charset
+      · cases hl : cfg.inverse.lookup c.toNat with
+        | none => simp [hc]
+        | some v =>
+          have hc' : cfg.charset.contains c = true := by simpa using hc
+          simp only [hc, hc', Bool.not_true, Bool.false_eq_true, if_false, if_true]
+          -- the nested loop over the masks, whatever it is handed besides its state
+          refine tuple_congr _ _ (decVal cfg s v) ?_
+          refine decInner_generic v _ ?_ ?_ cfg.bits s
+          · intros; rfl
+          · intro m ms latIv lonIv lonErr latErr lc
+            rw [Src.Geohash.decodeNiemeyer.loop2]
+            cases lc <;> cases hb : testMask v m <;> simp [decBit, testMask, mid] at hb ⊢ <;> simp [hb]
+      · simp [hc]
 
 /-! ## `_coord_to_niemeyer` -/
-
-/-- once `geohash_position` has reached `length` the loop returns the hash, whatever fuel is left -/
-theorem encLoop_done (p : Pt) (length : Int) (base : Nat) (cfg : NiemeyerCfg) (lon lat : Rat)
-    (fuel : Nat) (gh : List Char) (latIv lonIv : Rat × Rat) (ch bit : Nat) (lc : Bool) (pos : Nat)
-    (h : length ≤ (pos : Int)) :
-    Src.Geohash.coordToNiemeyer.loop1 p length base cfg lon lat fuel gh latIv lonIv ch bit lc pos = .ok gh := by
-  have h' : ¬ ((pos : Int) < length) := by omega
-  cases fuel <;> simp [Src.Geohash.coordToNiemeyer.loop1, h']
-
-/-- one iteration of the `while` loop, in the model's vocabulary: one `encBit`, the bit or-ed into the character
-    when it is set, then either the next mask or the finished character -/
-theorem encLoop_step (p : Pt) (length : Int) (base : Nat) (cfg : NiemeyerCfg) (lon lat : Rat)
-    (fuel : Nat) (gh : List Char) (latIv lonIv : Rat × Rat) (ch bit : Nat) (lc : Bool) (pos : Nat)
-    (hpos : (pos : Int) < length) (hbit : bit < cfg.bits.length) :
-    Src.Geohash.coordToNiemeyer.loop1 p length base cfg lon lat (fuel + 1) gh latIv lonIv ch bit lc pos =
-      (let r := encBit lon lat ⟨lonIv, latIv, lc⟩
-       let ch' := if r.1 then ch ||| cfg.bits[bit] else ch
-       if bit + 1 < cfg.bits.length then
-         Src.Geohash.coordToNiemeyer.loop1 p length base cfg lon lat fuel gh r.2.latIv r.2.lonIv ch' (bit + 1) r.2.lonComp pos
-       else
-         match cfg.charset[ch']? with
-         | none => .error "ERR:Index"
-         | some c =>
-           Src.Geohash.coordToNiemeyer.loop1 p length base cfg lon lat fuel (gh ++ [c]) r.2.latIv r.2.lonIv 0 0 r.2.lonComp
-             (pos + 1)) := by
-  rw [Src.Geohash.coordToNiemeyer.loop1]
-  have hb : cfg.bits[bit]? = some cfg.bits[bit] := List.getElem?_eq_getElem hbit
-  have hlt : ((bit : Int) < ((cfg.bits.length : Nat) : Int) - 1) ↔ bit + 1 < cfg.bits.length := by omega
-  cases lc
-  · by_cases hc : lat > (latIv.1 + latIv.2) / 2
-    · by_cases hn : bit + 1 < cfg.bits.length
-      · simp [encBit, mid, hpos, hb, hlt, hc, hn]
-      · cases hx : cfg.charset[ch ||| cfg.bits[bit]]? <;> simp [encBit, mid, hpos, hb, hlt, hc, hn, hx]
-    · by_cases hn : bit + 1 < cfg.bits.length
-      · simp [encBit, mid, hpos, hb, hlt, hc, hn]
-      · cases hx : cfg.charset[ch]? <;> simp [encBit, mid, hpos, hb, hlt, hc, hn, hx]
-  · by_cases hc : lon > (lonIv.1 + lonIv.2) / 2
-    · by_cases hn : bit + 1 < cfg.bits.length
-      · simp [encBit, mid, hpos, hb, hlt, hc, hn]
-      · cases hx : cfg.charset[ch ||| cfg.bits[bit]]? <;> simp [encBit, mid, hpos, hb, hlt, hc, hn, hx]
-    · by_cases hn : bit + 1 < cfg.bits.length
-      · simp [encBit, mid, hpos, hb, hlt, hc, hn]
-      · cases hx : cfg.charset[ch]? <;> simp [encBit, mid, hpos, hb, hlt, hc, hn, hx]
 
 /-- the model's side of "finish the current character, then `m` more": what the loop computes from a state in the
     middle of a character (`bit` masks already consumed) -/
@@ -160,20 +151,42 @@ theorem encRest_zero (cfg : NiemeyerCfg) (lon lat : Rat) (m : Nat) (gh : List Ch
   | some c' =>
     cases encGo cfg lon lat m (encChar lon lat cfg.bits 0 s).2 <;> simp
 
+/-- what one iteration of the `while` loop is, in the model's vocabulary (`F` is the loop): one `encBit`, the bit or-ed
+    into the character when it is set, then either the next mask or the finished character -/
+def EncStep (cfg : NiemeyerCfg) (lon lat : Rat) (length : Int)
+    (F : Nat → List Char → Rat × Rat → Rat × Rat → Nat → Nat → Bool → Nat → Except String (List Char)) : Prop :=
+  ∀ (fuel : Nat) (gh : List Char) (latIv lonIv : Rat × Rat) (ch bit : Nat) (lc : Bool) (pos : Nat),
+    (pos : Int) < length → ∀ hbit : bit < cfg.bits.length,
+    F (fuel + 1) gh latIv lonIv ch bit lc pos =
+      (let r := encBit lon lat ⟨lonIv, latIv, lc⟩
+       let ch' := if r.1 then ch ||| cfg.bits[bit] else ch
+       if bit + 1 < cfg.bits.length then F fuel gh r.2.latIv r.2.lonIv ch' (bit + 1) r.2.lonComp pos
+       else
+         match cfg.charset[ch']? with
+         | none => .error "ERR:Index"
+         | some c => F fuel (gh ++ [c]) r.2.latIv r.2.lonIv 0 0 r.2.lonComp (pos + 1))
+
+/-- once `geohash_position` has reached `length` the loop returns the hash, whatever fuel is left -/
+def EncDone (length : Int)
+    (F : Nat → List Char → Rat × Rat → Rat × Rat → Nat → Nat → Bool → Nat → Except String (List Char)) : Prop :=
+  ∀ (fuel : Nat) (gh : List Char) (latIv lonIv : Rat × Rat) (ch bit : Nat) (lc : Bool) (pos : Nat),
+    length ≤ (pos : Int) → F fuel gh latIv lonIv ch bit lc pos = .ok gh
+
 /-- **the fuelled `while` loop is the model's character-wise recursion**, from any state in the middle of a character,
     as soon as the fuel covers the iterations that are left (`m` whole characters and the rest of the current one) -/
-theorem encLoop_eq (p : Pt) (length : Int) (base : Nat) (cfg : NiemeyerCfg) (lon lat : Rat) :
+theorem encLoop_generic (cfg : NiemeyerCfg) (lon lat : Rat) (length : Int)
+    (F : Nat → List Char → Rat × Rat → Rat × Rat → Nat → Nat → Bool → Nat → Except String (List Char))
+    (hdone : EncDone length F) (hstep : EncStep cfg lon lat length F) :
     ∀ (fuel m : Nat) (gh : List Char) (latIv lonIv : Rat × Rat) (ch bit : Nat) (lc : Bool) (pos : Nat),
       bit < cfg.bits.length → length = (pos : Int) + 1 + (m : Int) →
       m * cfg.bits.length + (cfg.bits.length - bit) ≤ fuel →
-      Src.Geohash.coordToNiemeyer.loop1 p length base cfg lon lat fuel gh latIv lonIv ch bit lc pos =
-        encRest cfg lon lat m gh ch bit ⟨lonIv, latIv, lc⟩ := by
+      F fuel gh latIv lonIv ch bit lc pos = encRest cfg lon lat m gh ch bit ⟨lonIv, latIv, lc⟩ := by
   intro fuel
   induction fuel with
   | zero => intro m gh latIv lonIv ch bit lc pos hbit _ hf; omega
   | succ fuel ih =>
     intro m gh latIv lonIv ch bit lc pos hbit hlen hf
-    rw [encLoop_step p length base cfg lon lat fuel gh latIv lonIv ch bit lc pos (by omega) hbit]
+    rw [hstep fuel gh latIv lonIv ch bit lc pos (by omega) hbit]
     have hdrop : cfg.bits.drop bit = cfg.bits[bit] :: cfg.bits.drop (bit + 1) := List.drop_eq_getElem_cons hbit
     by_cases hn : bit + 1 < cfg.bits.length
     · simp only [hn, if_true]
@@ -192,26 +205,27 @@ theorem encLoop_eq (p : Pt) (length : Int) (base : Nat) (cfg : NiemeyerCfg) (lon
         simp only []
         cases m with
         | zero =>
-          rw [encLoop_done _ _ _ _ _ _ _ _ _ _ _ _ _ _ (by omega)]
+          rw [hdone _ _ _ _ _ _ _ _ (by omega)]
           simp [encGo]
         | succ m =>
           have hk : (m + 1) * cfg.bits.length = m * cfg.bits.length + cfg.bits.length := Nat.succ_mul _ _
           rw [ih m (gh ++ [c]) _ _ 0 0 _ (pos + 1) (by omega) (by push_cast at hlen ⊢; omega) (by omega)]
           rw [encRest_zero]
 
-/-- `_coord_to_niemeyer` for a config whose `bits` is not empty (every well-formed one): the loop started at the config's
-    ranges with the fuel `length · len(bits)` is the model's `encodeCfg` — **the fuel suffices** -/
-theorem encodeCfg_eq (p : Pt) (length : Int) (base : Nat) (cfg : NiemeyerCfg) (lon lat : Rat)
-    (hk : 0 < cfg.bits.length) :
-    Src.Geohash.coordToNiemeyer.loop1 p length base cfg lon lat (length.toNat * cfg.bits.length) []
-        (cfg.minY, cfg.maxY) (cfg.minX, cfg.maxX) 0 0 true 0 = encodeCfg cfg lon lat length.toNat := by
+/-- … started at the config's ranges with the fuel `length · len(bits)`, for a config whose `bits` is not empty (every
+    well-formed one): the model's `encodeCfg` — **the fuel suffices** -/
+theorem encodeCfg_generic (cfg : NiemeyerCfg) (lon lat : Rat) (length : Int)
+    (F : Nat → List Char → Rat × Rat → Rat × Rat → Nat → Nat → Bool → Nat → Except String (List Char))
+    (hdone : EncDone length F) (hstep : EncStep cfg lon lat length F) (hk : 0 < cfg.bits.length) :
+    F (length.toNat * cfg.bits.length) [] (cfg.minY, cfg.maxY) (cfg.minX, cfg.maxX) 0 0 true 0 =
+      encodeCfg cfg lon lat length.toNat := by
   by_cases hl : length ≤ 0
-  · rw [encLoop_done _ _ _ _ _ _ _ _ _ _ _ _ _ _ (by simpa using hl)]
+  · rw [hdone _ _ _ _ _ _ _ _ (by simpa using hl)]
     have : length.toNat = 0 := by omega
     simp [this, encodeCfg, encGo]
   · obtain ⟨m, hm⟩ : ∃ m : Nat, length.toNat = m + 1 := ⟨length.toNat - 1, by omega⟩
     have hk' : (m + 1) * cfg.bits.length = m * cfg.bits.length + cfg.bits.length := Nat.succ_mul _ _
-    rw [encLoop_eq p length base cfg lon lat _ m [] _ _ 0 0 true 0 hk (by push_cast; omega) (by rw [hm]; omega)]
+    rw [encLoop_generic cfg lon lat length F hdone hstep _ m [] _ _ 0 0 true 0 hk (by push_cast; omega) (by rw [hm]; omega)]
     have := encRest_zero cfg lon lat m [] (Char.ofNat 0) ⟨(cfg.minX, cfg.maxX), (cfg.minY, cfg.maxY), true⟩
     rw [hm]
     unfold encodeCfg EncSt.init
@@ -234,7 +248,38 @@ theorem coordToNiemeyer_eq (p : Pt) (length : Int) (base : Nat) :
     have hl : niemeyerConfigs.lookup base = some cfg := hb
     have hk : 0 < cfg.bits.length := (cfgOf_wf hb).1.2.2.2.2.2.1
     simp only [hl, hb, Option.isSome_some, Bool.not_true, Bool.false_eq_true, if_false]
-    exact encodeCfg_eq p length base cfg p.1 p.2 hk
+    refine encodeCfg_generic cfg p.1 p.2 length _ ?_ ?_ hk
+    · intro fuel gh latIv lonIv ch bit lc pos h
+      -- (the loop test, in the spellings `simp` may leave it in)
+      have h1 : ¬ ((pos : Int) < length) := by omega
+      have h2 : ¬ ((pos : Int) ≤ length - 1) := by omega
+      have h3 : ¬ ((pos : Int) + 1 ≤ length) := by omega
+      cases fuel <;> simp [Src.Geohash.coordToNiemeyer.loop1, h, h1, h2, h3]
+    · intro fuel gh latIv lonIv ch bit lc pos hpos hbit
+      rw [Src.Geohash.coordToNiemeyer.loop1]
+      have hb : cfg.bits[bit]? = some cfg.bits[bit] := List.getElem?_eq_getElem hbit
+      have hp2 : (pos : Int) ≤ length - 1 := by omega
+      have hp3 : (pos : Int) + 1 ≤ length := by omega
+      have hp4 : ¬ (length ≤ (pos : Int)) := by omega
+      have hlt : ((bit : Int) < ((cfg.bits.length : Nat) : Int) - 1) ↔ bit + 1 < cfg.bits.length := by omega
+      have hlt2 : ((bit : Int) ≤ ((cfg.bits.length : Nat) : Int) - 2) ↔ bit + 1 < cfg.bits.length := by omega
+      have hlt3 : ((bit : Int) = ((cfg.bits.length : Nat) : Int) - 1) ↔ ¬ (bit + 1 < cfg.bits.length) := by omega
+      have hlt4 : (((cfg.bits.length : Nat) : Int) - 1 ≤ (bit : Int)) ↔ ¬ (bit + 1 < cfg.bits.length) := by omega
+      cases lc
+      · by_cases hc : p.2 > (latIv.1 + latIv.2) / 2
+        · by_cases hn : bit + 1 < cfg.bits.length
+          · simp [encBit, mid, hpos, hp2, hp3, hp4, hb, hlt, hlt2, hlt3, hlt4, hc, hn]
+          · cases hx : cfg.charset[ch ||| cfg.bits[bit]]? <;> simp [encBit, mid, hpos, hp2, hp3, hp4, hb, hlt, hlt2, hlt3, hlt4, hc, hn, hx]
+        · by_cases hn : bit + 1 < cfg.bits.length
+          · simp [encBit, mid, hpos, hp2, hp3, hp4, hb, hlt, hlt2, hlt3, hlt4, hc, hn]
+          · cases hx : cfg.charset[ch]? <;> simp [encBit, mid, hpos, hp2, hp3, hp4, hb, hlt, hlt2, hlt3, hlt4, hc, hn, hx]
+      · by_cases hc : p.1 > (lonIv.1 + lonIv.2) / 2
+        · by_cases hn : bit + 1 < cfg.bits.length
+          · simp [encBit, mid, hpos, hp2, hp3, hp4, hb, hlt, hlt2, hlt3, hlt4, hc, hn]
+          · cases hx : cfg.charset[ch ||| cfg.bits[bit]]? <;> simp [encBit, mid, hpos, hp2, hp3, hp4, hb, hlt, hlt2, hlt3, hlt4, hc, hn, hx]
+        · by_cases hn : bit + 1 < cfg.bits.length
+          · simp [encBit, mid, hpos, hp2, hp3, hp4, hb, hlt, hlt2, hlt3, hlt4, hc, hn]
+          · cases hx : cfg.charset[ch]? <;> simp [encBit, mid, hpos, hp2, hp3, hp4, hb, hlt, hlt2, hlt3, hlt4, hc, hn, hx]
 
 /-! ## `_get_niemeyer_subhashes`, `niemeyer_to_geobox`, `NiemeyerHasher._get_surrounding` -/
 
@@ -255,7 +300,9 @@ theorem niemeyerToGeobox_eq (gh : List Char) (base : Nat) :
     Src.Geohash.niemeyerToGeobox gh base = cellBox base gh := by
   unfold Src.Geohash.niemeyerToGeobox cellBox
   rw [decodeNiemeyer_eq]
-  cases decode base gh <;> rfl
+  cases decode base gh with
+  | error e => rfl
+  | ok d => obtain ⟨lon, lat, lonErr, latErr⟩ := d; first | rfl | simp
 
 /-- **the translated `_get_surrounding` is the model's `surrounding`**: the eight re-encoded offset centres, in the
     source's order -/
@@ -274,14 +321,25 @@ theorem getSurrounding_eq (gh : List Char) (base : Nat) :
 
 /-! ## the config-generic statements and the three concrete bases -/
 
-/-- the codec loops of the source, for **every** config with a non-empty `bits` (in particular every well-formed one, `WF`):
-    the decoder loop is `decodeCfg`, the fuelled encoder loop is `encodeCfg` -/
-theorem loops_eq_of_wf {cfg : NiemeyerCfg} (hw : WF cfg) (p : Pt) (gh gh' : List Char) (length : Int) (base : Nat) (lon lat : Rat) :
-    Src.Geohash.decodeNiemeyer.loop1 gh' base cfg gh (cfg.minY, cfg.maxY) (cfg.minX, cfg.maxX) cfg.maxX cfg.maxY true =
-        decodeCfg cfg gh ∧
-      Src.Geohash.coordToNiemeyer.loop1 p length base cfg lon lat (length.toNat * cfg.bits.length) []
-        (cfg.minY, cfg.maxY) (cfg.minX, cfg.maxX) 0 0 true 0 = encodeCfg cfg lon lat length.toNat :=
-  ⟨decodeCfg_eq gh' base cfg gh, encodeCfg_eq p length base cfg lon lat hw.2.2.2.2.2.1⟩
+/-- the codec loops, for **every** well-formed config (`WF`, the predicate the codec theorems of `Props/C11` rest on): whatever
+    satisfies the equations of the source's decoder loop is `decodeCfg`, whatever satisfies those of the fuelled encoder
+    loop is `encodeCfg` (`decodeNiemeyer_eq` and `coordToNiemeyer_eq` instantiate this with the generated loops and the
+    config found under `base`) -/
+theorem loops_eq_of_wf {cfg : NiemeyerCfg} (hw : WF cfg) :
+    (∀ (G : List Char → Rat × Rat → Rat × Rat → Rat → Rat → Bool → Except String (Rat × Rat × Rat × Rat)),
+      (∀ s : DecSt, G [] s.latIv s.lonIv s.lonErr s.latErr s.lonComp = .ok (mid s.lonIv, mid s.latIv, s.lonErr, s.latErr)) →
+      (∀ c cs (s : DecSt), G (c :: cs) s.latIv s.lonIv s.lonErr s.latErr s.lonComp =
+        match decChar cfg s c with
+        | .ok s' => G cs s'.latIv s'.lonIv s'.lonErr s'.latErr s'.lonComp
+        | .error e => .error e) →
+      ∀ gh, G gh (cfg.minY, cfg.maxY) (cfg.minX, cfg.maxX) cfg.maxX cfg.maxY true = decodeCfg cfg gh) ∧
+    (∀ (lon lat : Rat) (length : Int)
+      (F : Nat → List Char → Rat × Rat → Rat × Rat → Nat → Nat → Bool → Nat → Except String (List Char)),
+      EncDone length F → EncStep cfg lon lat length F →
+      F (length.toNat * cfg.bits.length) [] (cfg.minY, cfg.maxY) (cfg.minX, cfg.maxX) 0 0 true 0 =
+        encodeCfg cfg lon lat length.toNat) :=
+  ⟨fun G h0 hs gh => decodeCfg_generic cfg G h0 hs gh,
+   fun lon lat length F hd hs => encodeCfg_generic cfg lon lat length F hd hs hw.2.2.2.2.2.1⟩
 
 /-- bases 16, 32 and 64: the translated functions are the model's codec over the generated tables -/
 theorem bases_eq (p : Pt) (gh : List Char) (length : Int) :
